@@ -52,6 +52,7 @@ def setup(ctx):
     ctx.require("monitor", "outcome_before", 50)
     ctx.require("monitor", "outcome_after", 27)
     ctx.require("monitor", "defective_imports_via_cli", 60)
+    ctx.require("monitor", "lookalike_operations", 60)
 
 
 # --------------------------------------------------------------------------- injector
@@ -526,6 +527,63 @@ def run_defective(ctx, tmp, nstore):
             ctx.case(("io", kind, mode, nstore), True, sample={"defect": kind, "mode": mode, "raised": raised})
 
 
+# --------------------------------------------------------------------------- names that resemble each other
+
+
+LOOKALIKES = ["node_1.example", "node-1.example", "nodeA1.example", "100%.example", "100.mirror.example", "100x.example", "example.org", "Example.org", "EXAMPLE.ORG",
+              "a.example", "a_example", "%", "_", "%.example", "[::1]", "[::1%eth0]", "ex.ample", "exxample", "ünï.example", "ÜNÏ.example"]
+
+
+def run_lookalikes(ctx, tmp):
+    """'never alters pins of hosts the operation did not name': a store full of names that match each other
+    under SQL LIKE, case folding or Unicode folding; every single-host operation is compared with a model
+    that touches exactly the named row(s)."""
+    ports = {h: (1965, 1966) if i % 3 == 0 else (1965,) for i, h in enumerate(LOOKALIKES)}
+
+    def fresh():
+        dbpath = os.path.join(tmp, "look.db")
+        for suffix in ("", "-journal", "-wal", "-shm"):
+            if os.path.exists(dbpath + suffix):
+                os.unlink(dbpath + suffix)
+        db = make_db(dbpath)
+        for i, h in enumerate(LOOKALIKES):
+            for p in ports[h]:
+                db.trust(h, p, cert_obj(i % 3)[0])
+        return dbpath, db
+
+    for i, h in enumerate(LOOKALIKES):
+        ops = [
+            ("revoke", lambda db, h=h: db.revoke(h, 1965), lambda rows, h=h: [r for r in rows if (r[0], r[1]) != (h, 1965)]),
+            ("revoke-by-hostname", lambda db, h=h: db.revoke_by_hostname(h), lambda rows, h=h: [r for r in rows if r[0] != h]),
+            ("trust-other-cert", lambda db, h=h, i=i: db.trust(h, 1965, cert_obj((i + 1) % 3)[0]),
+             lambda rows, h=h, i=i: [(r[0], r[1], fp((i + 1) % 3) if (r[0], r[1]) == (h, 1965) else r[2], r[3]) for r in rows]),
+            ("verify-changed", lambda db, h=h, i=i: db.verify(h, 1965, cert_obj((i + 1) % 3)[0]), lambda rows: list(rows)),
+            ("count-by-hostname", lambda db, h=h: db.count_by_hostname(h), lambda rows: list(rows)),
+        ]
+        if not h.startswith(("%", "_", "-")):
+            ops.append(("cli-revoke-port", lambda db, h=h: cli(db.db_path, ["revoke", h, "--port", "1965"]), lambda rows, h=h: [r for r in rows if (r[0], r[1]) != (h, 1965)]))
+            ops.append(("cli-revoke-all-ports", lambda db, h=h: cli(db.db_path, ["revoke", h, "--force"]), lambda rows, h=h: [r for r in rows if r[0] != h]))
+        for name, op, model in ops:
+            dbpath, db = fresh()
+            before = dump(dbpath)
+            ret = None
+            try:
+                ret = op(db)
+            except Exception as e:  # noqa: BLE001
+                ctx.anomaly(f"lookalike op raised: {name}: {type(e).__name__}")
+                continue
+            got = dump(dbpath)
+            want = sorted(model(list(before)))
+            ctx.count("monitor", "lookalike_operations")
+            wit = {"operation": name, "host": h, "returned": repr(ret)[:60], "rows_before": len(before), "rows_after": len(got),
+                   "unexpectedly_gone": [r[:2] for r in want if r not in got][:6], "unexpectedly_present_or_changed": [r[:3] for r in got if r not in want][:6]}
+            if got != want:
+                ctx.violation(f"other-hosts-altered:op={name.replace('cli-', '')}", f"{name}({h!r}) changed rows of hosts it did not name", wit)
+            elif name == "count-by-hostname" and ret != len(ports[h]):
+                ctx.violation("other-hosts-counted:op=count_by_hostname", f"count_by_hostname({h!r}) = {ret}, the store holds {len(ports[h])} entries of that name", wit)
+            ctx.case(("lookalike", name, h), True, sample=wit)
+
+
 # --------------------------------------------------------------------------- failed operation, then the next one on the same handle
 
 
@@ -769,6 +827,8 @@ def run(ctx):
                 run_defective(ctx, tmp, nstore)
         if ctx.mine(7):
             run_failed_then_next(ctx, tmp)
+        if ctx.mine(8):
+            run_lookalikes(ctx, tmp)
         run_roundtrip(ctx, tmp, rng)
         run_strace(ctx, tmp)
     finally:
